@@ -188,6 +188,9 @@ func (s *sim) AttestationData(ctx context.Context, opts *api.AttestationDataOpts
 		d.Source.Epoch = phase0.Epoch(uint64(1)<<63 + uint64(ri))
 	case "target-far-future":
 		d.Target.Epoch = phase0.Epoch(^uint64(0))
+	case "target-wraps-in-slots":
+		// an epoch whose first slot, computed in 64 bits, wraps round to one not after the duty's
+		d.Target.Epoch = phase0.Epoch((^uint64(0))/spe + 1 + uint64(ri)%(epoch+1))
 	}
 	s.mu.Lock()
 	n := uint64(len(s.replies))
@@ -328,7 +331,7 @@ func Generate(r *rand.Rand) *History {
 	nRuns := 2 + r.Intn(9)
 	epoch := uint64(r.Intn(3))
 	dataKinds := []string{"ok", "ok", "ok", "ok", "ok", "error", "wrong-slot", "target-above", "target-below", "source-above-target"}
-	hugeKinds := []string{"source-far-future", "source-2^63", "target-far-future"}
+	hugeKinds := []string{"source-far-future", "source-2^63", "target-far-future", "target-wraps-in-slots"}
 	for i := 0; i < nRuns; i++ {
 		// epochs drift forward; a duty for e is never started after one for e+2 completed
 		if r.Intn(4) == 0 {
